@@ -161,6 +161,15 @@ Theorem C04_add_is_seen : forall s k b bs v c1 c2,
 Proof. exact denot_after_add. Qed.
 Print Assumptions C04_add_is_seen.
 
+(* the same when what is added is a pre-built Binding object (key_binding decorator):
+   add() composes its own filter/eager/is_global with the object's and keeps the
+   object's handler, save_before and record_in_macro *)
+Theorem C04_add_binding_object_is_seen : forall s k pre arg bs v c1 c2,
+  wfs s -> nth_error s k = Some (OKB bs v c1 c2) -> cls (bfilter arg) <> CNever ->
+  denot (kb_addb s k pre arg) k = bs ++ [compose_binding pre arg].
+Proof. exact denot_after_addb. Qed.
+Print Assumptions C04_add_binding_object_is_seen.
+
 (* the wrapper caches rest on this: an unchanged version means unchanged bindings *)
 Theorem C04_same_version_same_bindings : forall s0 s, older s0 s -> wfs s ->
   forall i, (i < length s)%nat -> cver s0 i = cver s i -> denot s0 i = denot s i.
@@ -177,7 +186,7 @@ Print Assumptions C04_remove_skips_observed.
 (* ---- non-vacuity: 'a' then timeout, with bindings a and a-b: the key waits,
    the timeout fires binding #0 *)
 Example C04_rule_example :
-  let l := [mkbinding [1] FAlways FNever false 0 []; mkbinding [1; 2] FAlways FNever false 1 []] in
+  let l := [mkbinding [1] FAlways FNever false 0 [] true 0; mkbinding [1; 2] FAlways FNever false 1 [] true 0] in
   send (index_from 0 l) [] [] [] (IKey 1) = LDone [1] [] [] [] /\
   send (index_from 0 l) [1] [] [] IFlush = LDone [] [] [] [EInvoke 0 [1]].
 Proof. split; reflexivity. Qed.
